@@ -1,5 +1,5 @@
 (* C06  `stop` is never lost and always produces a prompt `bestmove`. *)
-From Coq Require Import List Arith Lia.
+From Coq Require Import List Arith Lia ZArith.
 From CV Require Import Gen.Layout Gen.LayoutAst Engine.StopProtocol Engine.StopProofs.
 Import ListNotations.
 
@@ -9,6 +9,10 @@ Theorem C06_go_does_not_touch_the_flag : go_touches_stop_flag = false.
 Proof. reflexivity. Qed.
 Theorem C06_flag_is_atomic : stop_flag_atomic = true.
 Proof. reflexivity. Qed.
+(* ... and no member function of Search writes anything but the literal 'true' to the flag (the model's search thread
+   never clears it: lemma sstep_keeps_flag); the walk that establishes this saw the 'flag = true' statements: *)
+Theorem C06_search_thread_never_clears_the_flag : flag_clearing_writes = 0%Z /\ (1 <= flag_set_sites)%Z.
+Proof. split; [reflexivity|discriminate]. Qed.
 
 (* For EVERY interleaving of the reader thread's stop with the search thread (the stop may arrive before the search
    thread has executed a single step, during init, at any node visit, between iterations, after the last one) and
